@@ -121,3 +121,12 @@ Proof.
       rewrite <- app_assoc in HP''. exact HP''. }
   destruct (G l [] s0 H0) as [s [E HP]]. exists s. split; assumption.
 Qed.
+
+Lemma nseq_from_map start k : nseq_from start k = map (fun i => start + N.of_nat i) (seq 0 k).
+Proof.
+  revert start. induction k as [|k IH]; intro start; [reflexivity|].
+  cbn [nseq_from seq map]. rewrite IH. f_equal; [lia|].
+  rewrite <- seq_shift, map_map. apply map_ext. intro i. lia.
+Qed.
+Lemma nseq_unfold n : nseq n = map N.of_nat (seq 0 (N.to_nat n)).
+Proof. unfold nseq. rewrite nseq_from_map. apply map_ext. intro i. lia. Qed.
